@@ -23,8 +23,25 @@ def new_case(drv, rng, gen, rep, **kw):
         if c.err is not None:
             rep.count("generated_text_rejected_by_loader:" + c.err)
             continue
+        if has_nonfinite_constant(c.ode):
+            # e.g. exp(1e3): outside "values at which the model's expressions are defined"
+            rep.count("generated_model_with_overflowing_constant")
+            continue
         return m, text, c
     return None
+
+
+def has_nonfinite_constant(ode):
+    import sympy
+
+    for a in ode.intermediates + ode.state_derivatives:
+        e = a.expr
+        if e.has(sympy.oo, -sympy.oo, sympy.zoo, sympy.nan):
+            return True
+        for f in e.atoms(sympy.Float):
+            if not (abs(float(f)) < 1e300):
+                return True
+    return False
 
 
 def mirror_issue(c, text):
